@@ -626,3 +626,30 @@ def check_push_writes(chk, unit, fnames):
                           % (name, tab, X.render(w)[:50]),
                    proof="dominated by the increment of %s" % idx["n"])
     return n
+
+
+def check_null_literal_args(chk, prog, unit, rule="P5"):
+    """No call hands a NULL constant to a parameter that the callee treats as a broken invariant (ASSERT: refused at runtime
+    level 0, fatal at level >= 1).  Such a call can never do what the caller wrote it for; in spifconf_parse_line this is
+    the push of the <argv> pseudo-file, whose pop then underflows the file stack."""
+    fatal = nullness.fatal_guarded_params(prog, NORETURN)
+    n = 0
+    for f in unit.functions.values():
+        for c in X.calls_in(f.body):
+            cn = X.callee_name(c)
+            if not cn or prog.fn(cn) is None:
+                continue
+            for j, a in enumerate(c["ch"][1:]):
+                if X.is_null_const(a) and (X.is_pointer(a) or X.is_pointer(X.strip(a)) or True) and (cn, j) in fatal:
+                    g = prog.fn(cn)
+                    if j >= len(g.params) or not g.params[j].get("tp"):
+                        continue
+                    n += 1
+                    chk.ob(rule, f.name, "null-literal-to-asserted-param:%s#%d" % (cn, j), False, loc=f.loc(c),
+                           detail="%s calls %s with NULL for `%s`, which %s ASSERTs to be non-NULL: the call is refused (runtime level 0) or "
+                                  "kills the process (level >= 1), so what %s relies on it to do - here pushing an entry whose pop follows - "
+                                  "never happens" % (f.name, cn, g.params[j]["n"], cn, f.name))
+    if not n:
+        chk.ob(rule, unit.name, "null-literal-to-asserted-param", True, loc="src/" + unit.name,
+               proof="no call passes a NULL constant to an ASSERT-guarded parameter")
+    return n
